@@ -21,12 +21,14 @@ type AbsTx struct {
 	Ins  []int  `json:"ins"`
 	Refs []int  `json:"refs"`
 	Outs []int  `json:"outs"`
+	W    int    `json:"w"` // weight: small integers in Leg M, the real encoded size when derived from real transactions
 }
 
 type AbsScen struct {
 	Name    string  `json:"name"`
 	Regime  string  `json:"regime"` // "both": v1 and v2 valid; "v2": v2 only
 	V1OK    bool    `json:"v1ok"`
+	MaxPool int     `json:"maxpool"` // the pool is full when the pooled transactions weigh at least this much
 	N       int     `json:"n"`
 	Parent  []int   `json:"parent"`
 	Height  []int   `json:"height"`
@@ -191,6 +193,7 @@ func blockLeaves(b types.Block) (creates, spends []types.Hash256) {
 func (s *Scen) Abstract() AbsScen {
 	n := s.NumAbs()
 	a := AbsScen{Name: s.Name, Regime: s.Regime, V1OK: s.Regime != "v2", N: n, NTx: len(s.Txs), Sets: []any{}, RSets: [][]int{}, Look: []int{}, TxSetC: []int{}}
+	a.MaxPool = int(s.Node(1).L.CS.MaxBlockWeight() * 10) // revalidatePool: txpoolMaxWeight
 	rootH := int(s.Node(1).Height)
 	for k := 1; k <= n; k++ {
 		nd := s.Node(k)
@@ -256,7 +259,12 @@ func (s *Scen) Abstract() AbsScen {
 		if p.V2 {
 			kind = "v2"
 		}
-		a.Tx = append(a.Tx, AbsTx{Kind: kind, Ins: s.leaves(p.Ins), Refs: s.leaves(p.Refs), Outs: s.leaves(p.Outs)})
+		cs := s.Node(1).L.CS
+		w := cs.TransactionWeight(p.T1)
+		if p.V2 {
+			w = cs.V2TransactionWeight(p.T2)
+		}
+		a.Tx = append(a.Tx, AbsTx{Kind: kind, Ins: s.leaves(p.Ins), Refs: s.leaves(p.Refs), Outs: s.leaves(p.Outs), W: int(w)})
 	}
 	if a.Tx == nil {
 		a.Tx = []AbsTx{}
